@@ -275,7 +275,7 @@ def run_model(case_):
 
 FAMILIES = [
     Family('block-text', case, run, quick=5000, thorough=200000),
-    Family('model-descriptions', model_case, run_model, quick=200, thorough=6000),
+    Family('model-descriptions', model_case, run_model, quick=320, thorough=6000),
 ]
 
 MANIFEST_INFO = {
